@@ -690,6 +690,28 @@ def neighbours(rng, f, evs):
         if rng.random() < 0.3:
             tags.append([rng.choice(QNAMES), rng.choice(QVALS)])
         out.append(grind_event(who, kind, ts, tags, rng.choice([None, None, 0x00, 0xFF])))
+    # half-matching neighbours, NEWER than everything the filter asks for: they satisfy all conditions but one, so they sit
+    # in front of the matching events in whichever index serves the filter and only the residual test rejects them
+    conds = [k for k in f if k in ("kinds", "authors") or k.startswith("#")]
+    if len(conds) >= 2:
+        hi = f.get("until") or 2000
+        for drop in conds:
+            for j in range(rng.choice([1, 2, 3])):
+                who = next((i for i, p in enumerate(env.PUBS) if p in (f.get("authors") or [])), rng.randrange(4))
+                kind = (f.get("kinds") or [1])[0]
+                if kind in (0, 3, 5) or 10000 <= kind < 40000 or kind < 0:
+                    kind = 1
+                tags = [[name, vals[0]] for name, vals in tagconds if vals]
+                if drop == "kinds":
+                    kind = kind + 1 if kind + 1 not in (f.get("kinds") or []) and kind + 1 not in (3, 5) and not (10000 <= kind + 1 < 40000) else 1111
+                elif drop == "authors":
+                    others = [i for i, p in enumerate(env.PUBS) if p not in f["authors"]]
+                    if not others:
+                        continue
+                    who = rng.choice(others)
+                else:
+                    tags = [tg for tg in tags if tg[0] != drop[1]] + [[drop[1], "no-such-value"]]
+                out.append(grind_event(who, kind, max(1, hi - j), tags, None))
     return out
 
 
@@ -730,6 +752,10 @@ def suite_frame(tier, seed):
                 verdicts = model_match([(q, e) for e in cand])
                 added = [e for e, v in zip(cand, verdicts) if not v["may"]]
                 a1, o1 = await impl_req(st, [raw])
+                # the same filter with a limit that is exactly the number of matching events: nothing is truncated, so the
+                # neighbours must not change that answer either (a limit counted in index candidates instead of matches would)
+                tight = dict(raw, limit=max(1, len(a1)))
+                t1, _o = await impl_req(st, [tight])
                 for e in added:
                     try:
                         await st.add_event(dict(e))
@@ -737,7 +763,13 @@ def suite_frame(tier, seed):
                         pass
                 await env.quiesce(st)
                 a2, o2 = await impl_req(st, [raw])
+                t2, _o = await impl_req(st, [tight])
                 results.append((raw, [e["id"] for e in a1], [e["id"] for e in a2], added, o1, o2))
+                if a1:
+                    results.append((tight, [e["id"] for e in t1], [e["id"] for e in t2], added, o1, o2))
+                    # ... and a limit that is not exceeded changes nothing to begin with (stored events that satisfy only the
+                    # indexed condition are unrelated data as well)
+                    results.append((tight, [e["id"] for e in a1], [e["id"] for e in t1], [], o1, o2))
             await close_store(st)
     env.run(go())
     rels = model_batch("kvm.rel", [{"a": a1, "b": a2} for _, a1, a2, _, _, _ in results], pid="KVM")
